@@ -1,15 +1,26 @@
 //! One module per property.
 use crate::common::Property;
 
+pub mod c02;
 pub mod c03;
 pub mod c04;
+pub mod c05;
+pub mod c06;
+pub mod c07;
+pub mod c08;
+pub mod c09;
 pub mod c11;
+pub mod c12;
 pub mod c13;
 pub mod c14;
 pub mod c15;
+pub mod c16;
+pub mod c17;
+pub mod c18;
 pub mod c19;
 pub mod c20;
+pub mod structs;
 
 pub fn all() -> Vec<Box<dyn Property>> {
-    vec![Box::new(c03::C03), Box::new(c04::C04), Box::new(c11::C11), Box::new(c13::C13), Box::new(c14::C14), Box::new(c15::C15), Box::new(c19::C19), Box::new(c20::C20)]
+    vec![Box::new(c02::C02), Box::new(c03::C03), Box::new(c04::C04), Box::new(c05::C05), Box::new(c06::C06), Box::new(c07::C07), Box::new(c08::C08), Box::new(c09::C09), Box::new(c11::C11), Box::new(c12::C12), Box::new(c13::C13), Box::new(c14::C14), Box::new(c15::C15), Box::new(c16::C16), Box::new(c17::C17), Box::new(c18::C18), Box::new(c19::C19), Box::new(c20::C20)]
 }
